@@ -45,6 +45,9 @@ namespace mon
       c.lazy = ( MON_LAZY != 0 );
       c.eolpol = MON_EOL;
       c.ctrl = MON_CTRL;
+#if defined( MON_MUSTIF )
+      c.mustif = true;
+#endif
       return c;
    }
 
@@ -80,8 +83,17 @@ namespace mon
    template< typename Rule > struct actA : act_impl< kind_of_vid_c( rid< Rule >::v ), rid< Rule >::v, 0 > {};
    template< typename Rule > struct actB : act_impl< kind_of_vid_b( rid< Rule >::v ), rid< Rule >::v, 1 > {};
 
+#if defined( MON_MUSTIF )
+   // must_if control underneath the monitor: rules with a message raise from their failure() hook
+   constexpr const char* mif_message_c( int vid ) { return vid < 0 ? nullptr : MON_MIF[ vid ]; }
+   struct mif_errors { template< typename Rule > static constexpr const char* message = mif_message_c( rid< Rule >::v ); };
+   template< typename Rule > using mif_base = typename pegtl::must_if< mif_errors, pegtl::normal, false >::template control< Rule >;
+   template< typename Rule > struct ctlA : control_impl_unwind< Rule, 0, false, mif_base< Rule >, true > {};
+   template< typename Rule > struct ctlB : control_impl_unwind< Rule, 1, false, mif_base< Rule >, true > {};
+#else
    template< typename Rule > struct ctlA : std::conditional_t< ( MON_CTRL & 2 ) != 0, control_impl_unwind< Rule, 0, ( MON_CTRL & 1 ) != 0 >, control_impl< Rule, 0, ( MON_CTRL & 1 ) != 0, false > > {};
    template< typename Rule > struct ctlB : std::conditional_t< ( MON_CTRL & 2 ) != 0, control_impl_unwind< Rule, 1, ( MON_CTRL & 1 ) != 0 >, control_impl< Rule, 1, ( MON_CTRL & 1 ) != 0, false > > {};
+#endif
 
 #if defined( MON_ANA )
 }  // namespace mon
